@@ -77,6 +77,7 @@ static void nt_labels(Ctx &c, const Aggr &ag, int b, int k) {
     if (removed) c.label("has-removed-node");
     if (multi && removed) c.label("nt:multi+removed");
     if (ag.small_removed) c.label("small-aggregate-removed");
+    if (ag.all_small) c.label("aggr:all-smaller-than-min_aggregate(empty-level)");
     if (ag.st.ties) c.label("strength-near-tie");
     if (ag.st.boundary) c.label("strength-boundary-hit");
     if (ag.st.strong && ag.st.weak > static_cast<long>(ag.id.size())) c.label("strong+weak-offdiag");
